@@ -90,7 +90,7 @@ def main():
             'level_note': c['note'], 'technique': c['tech']})
     na = [{'property_id': p, 'reason': NA.get(p, 'not yet built in this session; see DESIGN.md section 5')} for p in props if p not in CHECKS]
     m = {'version': 1,
-         'setup_cmd': 'python3 -m compileall -q vf >/dev/null && cbmc --version >/dev/null && clang++-14 --version >/dev/null && cvc5 --version >/dev/null',
+         'setup_cmd': 'python3 -m compileall -q vf >/dev/null && cbmc --version >/dev/null && goto-instrument --version >/dev/null && clang++-14 --version >/dev/null && /usr/lib/llvm-14/bin/opt --version >/dev/null && cvc5 --version >/dev/null && z3 --version >/dev/null && kissat --version >/dev/null',
          'hooks': {'guard': 'AU_VERIF', 'enable': 'no source hooks: /repo is not modified for verification; the generated drivers define AU_VERIF and include /repo/au/code headers as they are',
                    'baseline_off_cmd': 'cmake --build /repo/_build -j16 && ctest --test-dir /repo/_build -j8 --timeout 900',
                    'source_commits': [], 'add_only': True},
